@@ -63,7 +63,7 @@ pub fn run(ctx: &Ctx) {
         crate::docspace::Kind::Ws,
         crate::docspace::Kind::Comment,
     ];
-    for cfg in [first, wide_cfg(ctx.tier.pick(4, 5)), deep_cfg(ctx.tier.pick(6, 8)), entity_cfg(ctx.tier.pick(4, 5))] {
+    for cfg in [first, wide_cfg(ctx.tier.pick(4, 5)), deep_cfg(ctx.tier.pick(6, 8)), entity_cfg(ctx.tier.pick(4, 5)), chardata_cfg(ctx.tier.pick(5, 6))] {
     let describe = cfg.describe();
     let sp = Space::new(cfg);
     let res = par_for(
@@ -136,7 +136,7 @@ pub fn run(ctx: &Ctx) {
     ctx.set("deep_chains", json!({"max_depth": 120, "documents": chains.len()}));
     ctx.set("evaluations", json!(total_evals));
     ctx.set("distinct_nontrivial", json!(all_distinct.len()));
-    let searches: Vec<(usize, usize)> = ctx.tier.pick(vec![(2, 4), (3, 1)], vec![(2, 8), (3, 3)]);
+    let searches: Vec<(usize, usize)> = ctx.tier.pick(vec![(2, 4), (3, 1)], vec![(2, 6), (3, 2)]);
     for (aw, depth) in searches {
         let alphabet = materialise(history_cfg(aw));
         let mut events: Vec<Event> = alphabet.iter().cloned().map(Event::doc).collect();
@@ -156,7 +156,7 @@ pub fn run(ctx: &Ctx) {
             init_docs: &alphabet,
             events: &events,
             depth,
-            state_cap: ctx.tier.pick(400_000, 3_000_000),
+            state_cap: ctx.tier.pick(400_000, 1_500_000),
             audit_cap: ctx.tier.pick(2_000, 20_000),
             judge_init: &judge_i,
             judge: &judge_t,
